@@ -854,6 +854,8 @@ class Machine:
         if isinstance(v, str): return v
         if isinstance(v, (Frags,)): return v
         if isinstance(v, RStruct) and 'disp' in v.f: return v.f['disp']
+        if z3.is_bv(v): return Frags([z3.IntToStr(z3.BV2Int(v))])       # decimal rendering of an unsigned machine integer
+        if z3.is_int(v): return Frags([z3.IntToStr(v)])
         ty = self.type_of(v)
         if ty and '__fmt__' in self.impls.get(ty, {}):
             f = RStruct('Formatter', {'buf': ''})
